@@ -324,6 +324,9 @@ known("KF-C02-04", "C02", D, r"Decoder.*", r"stream-differs-from-buffer", r"ok-v
       'NewDecoder("-327680e-1").Decode(&int) = nil (stores the digit prefix); Unmarshal reports the error', "see KF-C16-03 (stream position)", "see KF-C16-03", "see KF-C16-03")
 known("KF-C02-04b", "C02", D, r"Decoder.*", r"ok-vs-err", r"ref:type:number->u?int(8|16|32|64|ptr)? @ doc:[a-z-]+(\+prepop)? @ .*",
       'NewDecoder("1.0").Decode(&uint8) = nil with UseNumber set as well', "see KF-C16-03 (stream position)", "see KF-C16-03", "see KF-C16-03")
+known("KF-C02-08", "C02", D, None, r"ok-vs-err", r"ref:string-tag-payload @ doc:[a-z-]+(\+prepop)? @ .*",
+      '{"Ab":" -1"} into struct{Name int16 `json:"Ab,string"`} is accepted (encoding/json: invalid use of ,string struct tag, trying to unmarshal " -1" into int16)', "internal/decoder/wrapped_string.go runs the ordinary value decoder on the payload, which skips leading whitespace (and stops at the first non-digit, see KF-C16-03)",
+      "other ,string payloads that are not exactly one literal of the member's type", "see KF-C16-03")
 known("KF-C02-06", "C02", D, None, r"field-selection:case-insensitive-match", r"(core|feature:.*)",
       '{"C":-1} does not reach the field tagged `json:"c,omitempty"` of an embedded struct; {"B":1} into EmbDeep is not reported as a type error (encoding/json matches case-insensitively)', "internal/decoder/struct.go: case-insensitive lookup is missing for fields promoted from embedded structs (see C15)",
       "any disagreement that disappears when keys are spelled exactly like their fields", "see C15")
